@@ -19,7 +19,7 @@ MODS = (B, MC, MF, MG, MI)
 
 @contextlib.contextmanager
 def shimmed(**extra):
-    sh = NPShim(havoc_empty=False, force_obj=True)
+    sh = NPShim(havoc_empty=True, force_obj=True)
     with contextlib.ExitStack() as st:
         for m in MODS:
             st.enter_context(patched(m, np=sh))
